@@ -19,6 +19,11 @@ for f in files:
     cmd += ["-ov", os.path.join(pkgdir, f) + "=" + os.path.join(hd, f)]
 for f in unit.get("extra_files") or []:
     cmd += ["-ov", os.path.join(pkgdir, os.path.basename(f)) + "=" + os.path.join(V, "harness", f)]
+if unit.get("pregen"):
+    pg = unit["pregen"]
+    outp = os.path.join("/tmp", "adhoc_" + pg["file"])
+    subprocess.run(["python3", os.path.join(V, pg["cmd"]), repo, outp], check=True)
+    cmd += ["-ov", os.path.join(pkgdir, pg["file"]) + "=" + outp]
 for a, b in (unit.get("redirects") or {}).items():
     cmd += ["-redirect", a + "=" + b]
 for h in args:
